@@ -1199,7 +1199,7 @@ func noRecode(c *core.Ctx) {
 				// where does the variable come from?
 				var src *ast.CallExpr
 				ast.Inspect(body, func(x ast.Node) bool {
-					if as, ok := x.(*ast.AssignStmt); ok && len(as.Rhs) == 1 && as.Pos() < call.Pos() {
+					if as, ok := x.(*ast.AssignStmt); ok && len(as.Rhs) == 1 && astx.Precedes(body, as, call) {
 						for _, l := range as.Lhs {
 							if astx.ObjOf(info, l) == obj {
 								if sc, ok := astx.Unparen(as.Rhs[0]).(*ast.CallExpr); ok {
